@@ -168,6 +168,7 @@ pub fn run(rep: &mut Report, tier: &str, seed: u64) {
             }
         });
     conflict_stream(rep, &mut runner, tier, seed);
+    dead_value_stream(rep, &mut runner, tier, seed);
 }
 
 /// Two-sided conflicts with other definitions in between: a duplicate scoped variable (or attribute) whose two
@@ -226,6 +227,84 @@ fn conflict_stream(rep: &mut Report, runner: &mut Runner, tier: &str, seed: u64)
                             rep.fail("direct", "C20 lazy: a conflict names a statement that does not assign the conflicting name", true,
                                 json!({"tsg": text, "source": source.src, "named": st, "conflicting_name": v, "error": res.run.outcome.pretty()}));
                         }
+                    }
+                }
+            }
+        }
+    }
+}
+
+/// Values nothing asks for: a local or scoped variable bound to a failing expression and never read (or read only by
+/// another unread variable). Strict evaluation fails at the statement; lazy evaluation fails when the leftover thunks and
+/// scoped variables are forced at the end — in both modes the error must cite the statement that bound the value.
+fn dead_value_stream(rep: &mut Report, runner: &mut Runner, tier: &str, seed: u64) {
+    use crate::gen::dsl::Program;
+    use crate::props::common::{gen_source, load, Loaded};
+    let n = if tier == "thorough" { 600 } else { 60 };
+    let root = crate::rng::Rng::new(seed ^ 0xdead);
+    for i in 0..n {
+        let mut r = root.fork(i as u64);
+        let bad = *r.pick(&["(plus \"a\" 1)", "(no-such-function 1)", "(format \"{}{}\" 1)", "[ (plus \"a\" 1) ]", "(replace \"abc\" \"(\" \"x\")", "(source-text 3)"]);
+        let binding = match r.below(5) {
+            0 => format!("let dead = {}", bad),
+            1 => format!("let dead = {}\n  let dead2 = dead", bad),
+            2 => format!("var dead = 1\n  set dead = {}", bad),
+            3 => format!("let @m.dead = {}", bad),
+            _ => format!("let dead = [ {} for zq in [1, 2] ]", bad),
+        };
+        let wrapped = match r.below(5) {
+            0 | 1 => format!("  {}\n", binding),
+            2 => format!("  if #true {{\n  {}\n  }}\n", binding),
+            3 => format!("  for zi in [1] {{\n  {}\n  }}\n", binding),
+            _ => format!("  scan \"ab\" {{\n    \"a\" {{\n  {}\n    }}\n  }}\n", binding),
+        };
+        let before = if r.chance(1, 2) { "  node live\n  attr (live) ok = 1\n" } else { "" };
+        let after = if r.chance(1, 2) { "  node live2\n  attr (live2) ok = 2\n" } else { "" };
+        let cap = if binding.contains("@m.") { "@m" } else { "@_m" };
+        let text = format!("(module) {} {{\n{}{}{}}}\n", cap, before, wrapped, after);
+        let file = match load(&text) {
+            Ok(Ok(f)) => f,
+            other => {
+                rep.fail("direct", "C20 dead-value program rejected", true, json!({"tsg": text, "result": format!("{:?}", other.map(|x| x.map(|_| "file")))}));
+                continue;
+            }
+        };
+        let source = gen_source(&mut r, true, false);
+        let info = crate::tree::TreeInfo::new(&source.tree);
+        let loaded = Loaded { program: Program { text: text.clone(), header: String::new(), stanzas: vec![text.clone()], globals: vec![], stanza_count: 1, has_fault: false, features: vec![], static_fault: None }, file };
+        let mi = crate::execx::model_input(&loaded.file, &source.tree, &source.src, &info);
+        runner.set_tree(&info, &source.src);
+        runner.table = crate::oracle::OracleTable::new();
+        runner.table.arm_sets = crate::astx::scan_arm_sets(&loaded.file);
+        let case = Case { tsg: &text, loaded: &loaded, source: &source, info: &info, mi: &mi };
+        rep.case(&format!("{}\u{0}{}", text, source.src), true);
+        for lazy in [false, true] {
+            let mode = if lazy { "lazy" } else { "strict" };
+            let res = runner.check_mode(rep, &case, &RunCfg { lazy, globals: vec![], outer_globals: vec![], debug: None, cancel_at: None }, true, true);
+            rep.count(&format!("dead-value-stream:{}:{}", mode, res.class));
+            if res.class == "ok" || res.class == "panic" {
+                rep.fail("direct", &format!("C20 {}: a value that fails to evaluate and that nothing reads did not make execution fail", mode), true,
+                    json!({"tsg": text, "source": source.src, "outcome": res.run.outcome.pretty()}));
+                continue;
+            }
+            // direct: the error cites a statement of the program that mentions the dead variable
+            match first_stmt_ctx(&res.run.outcome) {
+                None => rep.fail("direct", &format!("C20 {}: the error of a value nothing reads carries no statement context", mode), true,
+                    json!({"tsg": text, "source": source.src, "error": res.run.outcome.pretty()})),
+                Some(ctxs) => {
+                    let mut all: Vec<(Sexp, String)> = Vec::new();
+                    for stz in &loaded.file.stanzas {
+                        all_stmts(&stz.statements, &mut all);
+                    }
+                    let named: Vec<String> = ctxs.iter().map(|c| {
+                        let at = &c.as_list().unwrap()[0];
+                        all.iter().filter(|(l, _)| l == at).map(|(_, t)| t.clone()).collect::<Vec<_>>().join(" / ")
+                    }).collect();
+                    if !named.iter().any(|t| t.contains("dead") || t.contains("scan") || t.contains("if") || t.contains("for")) {
+                        rep.fail("direct", &format!("C20 {}: the error of a value nothing reads cites a statement that neither binds it nor encloses the binding", mode), true,
+                            json!({"tsg": text, "source": source.src, "named": named, "error": res.run.outcome.pretty()}));
+                    } else {
+                        rep.count("dead-value-stream:context-checked");
                     }
                 }
             }
